@@ -43,6 +43,8 @@ func run(c hx.Config) error {
 	rng := hx.NewRng(c.Seed)
 	nopt := storex.NOptions()
 	nfixed := len(storex.OptionSets())
+	cat := storex.CheckCatalogue()
+	nstatic := storex.NStaticChecks()
 	reps := 1
 	if c.Thorough() {
 		reps = 4
@@ -55,12 +57,12 @@ func run(c hx.Config) error {
 				// H1: child, then parent (and again)
 				h := storex.NewHist(b, false)
 				if h.Step(0, m, rep, o) {
-					h.Conv(1, 0, o)
-					h.Conv(0, 0, o)
+					h.ConvR(1, 0, o)
+					h.ConvR(0, 0, o)
 					h.ParseStep(0, o)
-					h.Conv(1, rng.Intn(nopt), o)
-					h.Conv(0, rng.Intn(nopt), o)
-					h.Conv(1, 0, o)
+					h.ConvR(1, rng.Intn(nopt), o)
+					h.ConvR(0, rng.Intn(nopt), o)
+					h.ConvR(1, 0, o)
 					emit(h, o, "H1")
 				}
 				// H5: registries. The child (and a composite holding it, when the type has one) is converted under a
@@ -74,34 +76,102 @@ func run(c hx.Config) error {
 						}
 					}
 					n := len(h.Live)
-					h.Conv(1, 0, o)
+					h.ConvR(1, 0, o)
 					for j := 0; j < n; j++ {
-						h.Conv(j, nfixed, o)
+						h.ConvR(j, nfixed, o)
 					}
 					for j := 0; j < n; j++ {
-						h.Conv(j, 0, o)
+						h.ConvR(j, 0, o)
 					}
 					for j := n - 1; j >= 0; j-- {
-						h.Conv(j, nfixed+1, o)
+						h.ConvR(j, nfixed+1, o)
 					}
-					h.Conv(n-1, nfixed+2, o)
+					h.ConvR(n-1, nfixed+2, o)
 					for j := 0; j < n; j++ {
-						h.Conv(j, rng.Intn(nfixed), o)
+						h.ConvR(j, rng.Intn(nfixed), o)
 					}
 					emit(h, o, "H5")
 				}
 				// H2: two siblings
 				h = storex.NewHist(b, false)
 				if h.Step(0, m, rep, o) && h.Step(0, hx.Pick(rng, methods), rng.Intn(3), o) {
-					h.Conv(1, 0, o)
-					h.Conv(2, 0, o)
-					h.Conv(1, 0, o)
+					h.ConvR(1, 0, o)
+					h.ConvR(2, 0, o)
+					h.ConvR(1, 0, o)
 					h.ParseStep(1, o)
 					h.ParseStep(0, o)
-					h.Conv(0, 0, o)
+					h.ConvR(0, 0, o)
 					h.Step(0, m, rep, o) // a sibling derived after the conversions
-					h.Conv(len(h.Live)-1, 0, o)
+					h.ConvR(len(h.Live)-1, 0, o)
 					emit(h, o, "H2")
+				}
+			}
+			// H6: check VALUES from the catalogue (storex/checks.go: the exported Describe/Meta factories with GlobalMeta
+			// variants of every JSON kind, user-defined checks, every check the public methods build) attached through
+			// every method that takes a core.ZodCheck; the result converted three times, then the parent, a composite
+			// holding the result three times, a sibling carrying the next catalogue entry, everything once more.
+			for _, cm := range storex.CheckMethods(b.Mk()) {
+				for ci := range cat {
+					if ci >= nstatic && !c.Thorough() && rng.Intn(len(cat)-nstatic) >= 40 {
+						continue
+					}
+					h := storex.NewHist(b, false)
+					if !h.Step(0, cm, storex.CheckVariantBase+ci, o) {
+						continue
+					}
+					h.ConvR(1, 0, o)
+					h.ConvR(1, 0, o)
+					h.ConvR(1, rng.Intn(nopt), o)
+					h.ConvR(0, 0, o)
+					for _, w := range []string{"Or", "Optional", "Array", "Slice", "And"} {
+						if h.Step(1, w, 0, o) {
+							break
+						}
+					}
+					n := len(h.Live)
+					for k := 0; k < 3; k++ {
+						h.ConvR(n-1, []int{0, rng.Intn(nopt), 0}[k], o)
+					}
+					h.Step(0, cm, storex.CheckVariantBase+(ci+1)%len(cat), o)
+					h.Step(1, cm, storex.CheckVariantBase+rng.Intn(nstatic), o) // a second check on top of the first
+					for j := 0; j < len(h.Live); j++ {
+						h.ConvR(j, 0, o)
+					}
+					h.ParseStep(1, o)
+					for j := len(h.Live) - 1; j >= 0; j-- {
+						h.ConvR(j, rng.Intn(nopt), o)
+					}
+					emit(h, o, "H6")
+				}
+			}
+			// H7: the same catalogue attached with the exported Internals().AddCheck to a freshly constructed schema of
+			// this type (every type takes checks this way); converted three times, a child derived by a random method
+			// and converted twice, the base again, a sibling, everything once more.
+			if rep == 0 {
+				for ci := range cat {
+					if ci >= nstatic && !c.Thorough() && rng.Intn(len(cat)-nstatic) >= 6 {
+						continue
+					}
+					h := storex.NewHist(storex.WithAddedCheck(b, storex.CheckVariantBase+ci), false)
+					h.ConvR(0, 0, o)
+					h.ConvR(0, rng.Intn(nopt), o)
+					h.ConvR(0, 0, o)
+					h.ParseStep(0, o)
+					for try := 0; try < 4; try++ {
+						if h.Step(0, hx.Pick(rng, methods), rng.Intn(3), o) {
+							break
+						}
+					}
+					if len(h.Live) > 1 {
+						h.ConvR(1, 0, o)
+						h.ConvR(1, rng.Intn(nopt), o)
+						h.ConvR(0, 0, o)
+						h.Step(0, hx.Pick(rng, methods), rng.Intn(3), o)
+					}
+					for j := 0; j < len(h.Live); j++ {
+						h.ConvR(j, 0, o)
+					}
+					emit(h, o, "H7")
 				}
 			}
 			// H3/H4: random family, conversions in random order with random options, each schema at least twice
@@ -117,18 +187,18 @@ func run(c hx.Config) error {
 					case 0:
 						h.ParseStep(j, o)
 					default:
-						h.Conv(j, rng.Intn(nopt), o)
+						h.ConvR(j, rng.Intn(nopt), o)
 					}
 					if rng.Intn(4) == 0 {
 						h.Step(rng.Intn(len(h.Live)), hx.Pick(rng, methods), rng.Intn(3), o)
 					}
 				}
 				for j := 0; j < n; j++ {
-					h.Conv(j, 0, o)
+					h.ConvR(j, 0, o)
 				}
 				emit(h, o, "H3")
 			}
 		}
 	}
-	return o.Close(map[string]any{"bases": len(storex.Bases()), "option_sets": nopt})
+	return o.Close(map[string]any{"bases": len(storex.Bases()), "option_sets": nopt, "check_catalogue": len(cat), "check_catalogue_static": nstatic})
 }
